@@ -20,7 +20,8 @@ import (
 	"verifharness/lib"
 )
 
-var anchors = []string{"please/src/core/state.go", "please/src/core/build_target.go", "please/src/plz/plz.go", "please/src/build/build_step.go", "please/src/core/graph.go", "please/src/cmap/"}
+// Race reports name files by their path on disk (/repo/src/... or a worktree), functions by import path.
+var anchors = []string{"/src/core/state.go", "/src/core/build_target.go", "/src/plz/plz.go", "/src/build/build_step.go", "/src/core/graph.go", "/src/core/cycle_detector.go", "please/src/cmap."}
 
 func TestC04(t *testing.T) {
 	r := lib.Start("C04")
